@@ -5,7 +5,7 @@
 EXTENDS Num, TLC
 R == 130
 RECURSIVE ToInt(_)
-ToInt(a) == IF a = <<>> THEN 0 ELSE Head(a) + B * ToInt(Tail(a))
+ToInt(a) == IF a = <<>> THEN 0 ELSE Head(a) + LimbBase * ToInt(Tail(a))
 Canon(a) == a = <<>> \/ a[Len(a)] # 0
 ASSUME \A x \in 0..R : ToInt(N(x)) = x /\ Canon(N(x))
 ASSUME \A x \in 0..R, y \in 0..R :
